@@ -574,7 +574,14 @@ def execute(kit, root, case, rng=None):
     try:
         b = Bench(kit, root, case, rng)
         if case["dest0"] == "prev":
-            b.write_p0(case["rounds"][0]["par"]["fmt"])
+            try:
+                b.write_p0(case["rounds"][0]["par"]["fmt"])
+            except OSError as exc:
+                # the library's own save of the earlier document did not leave it at the destination it was given:
+                # a deviation to report (the destination is "not what was saved"), not a failure of this harness
+                par = case["rounds"][0]["par"]
+                why = "the earlier save did not produce the destination file: %s" % str(exc)[:120]
+                return [{"op": "Begin", "i": 0, "dest": why, "fmt": par["fmt"], "faults": [], "ks": par.get("ks")}], [{} for _ in case["rounds"]]
         events, infos = [], []
         for rd in case["rounds"]:
             evs, info = b.do_round(rd)
